@@ -137,3 +137,86 @@ func verif_C06_size() {
 		}
 	}
 }
+
+// verif_C06_bdat: a chunked transfer of up to three BDAT commands whose declared
+// sizes come from a set of small values around the limit and of boundary
+// values of the integer types involved (2^31, 2^32, 2^63, 2^64 and their
+// neighbours). The backend must never read more than N octets, a chunk that
+// takes the declared total over N (or whose size cannot be represented) is
+// refused with 5xx, and 250 is given to LAST only if the whole message fits.
+func verif_C06_bdat() {
+	verifPreemptBound(0)
+	N := nondetInt(1, 3)
+	sizes := []string{"0", "1", "2", "3", "4", "2147483647", "2147483648", "4294967295", "4294967296",
+		"9223372036854775807", "9223372036854775808", "18446744073709551606", "18446744073709551615", "18446744073709551616"}
+	small := []int{0, 1, 2, 3, 4, -1, -1, -1, -1, -1, -1, -1, -1, -1}
+	K := verifBound(2, 3)
+	nch := nondetInt(1, K)
+	in := []byte("EHLO c\r\nMAIL FROM:<s@v>\r\nRCPT TO:<r@v>\r\n")
+	total := 0
+	alive := true // transaction still open according to the reference
+	expectRefused := make([]bool, nch)
+	sent := 0
+	for i := 0; i < nch; i++ {
+		k := verifChoice(len(sizes))
+		line := "BDAT " + sizes[k]
+		if i == nch-1 {
+			line += " LAST"
+		}
+		in = append(in, line+"\r\n"...)
+		if small[k] >= 0 {
+			in = append(in, nondetBytesN(small[k])...)
+		}
+		sent++
+		if !alive {
+			expectRefused[i] = true // no open transaction any more: 5xx
+			continue
+		}
+		if small[k] < 0 || total+small[k] > N {
+			expectRefused[i] = true
+			alive = false
+			if small[k] < 0 {
+				// nothing sensible can follow a chunk of unrepresentable size
+				nch = i + 1
+				break
+			}
+			continue
+		}
+		total += small[k]
+	}
+	var got []byte
+	var rerr error
+	be := &vbackend{}
+	be.dataFn = func(_ *vsession, r io.Reader) error {
+		got, rerr = verifReadAll(r, 3)
+		if rerr == io.EOF {
+			return nil
+		}
+		return rerr
+	}
+	s, _ := verifServer(be)
+	s.MaxMessageBytes = int64(N)
+	vc, _, _ := verifServe(s, in, io.EOF)
+	reps, wf := verifParseReplies(vc.out)
+	verifObserve("c06b", N, nch, sent, total, alive, len(got), wf, len(reps))
+	verifAssert(len(got) <= N, "C06.bdat-backend-never-reads-more-than-N")
+	verifAssert(wf && len(reps) >= 4+sent, "C06.bdat-reply-per-chunk")
+	if !wf || len(reps) < 4+sent {
+		return
+	}
+	for i := 0; i < sent; i++ {
+		r := reps[4+i]
+		if expectRefused[i] {
+			verifReach("C06.bdat-refused")
+			verifAssert(r.code/100 == 5, "C06.bdat-over-limit-chunk-refused")
+		} else {
+			verifReach("C06.bdat-accepted")
+			verifAssert(r.code == 250, "C06.bdat-fitting-chunk-accepted")
+		}
+	}
+	if alive && sent == nch {
+		verifAssert(rerr == io.EOF && len(got) == total, "C06.bdat-fitting-message-complete")
+	} else {
+		verifAssert(rerr != io.EOF || len(got) == 0 && rerr == nil, "C06.bdat-oversize-never-complete")
+	}
+}
